@@ -52,6 +52,15 @@ def processCase (cfg : ParseCfg) (c : Case) : Array String := Id.run do
         let (st', out') := judgeDef cid o raw st out
         hs := setH hs h st'; out := out'
       | none => out := out.s cid s!"op {o.n} unknown grammar"
+    | "descr" =>
+      epoch := epoch + 1
+      let tid := toNat (o.args.getD 0 "0")
+      let strict := (o.args.getD 1 "0") != "0"
+      match c.texts.find? (·.1 == tid) with
+      | some (_, text) =>
+        let (st', out') := judgeDescr cid o text strict st out
+        hs := setH hs h st'; out := out'
+      | none => out := out.s cid s!"op {o.n} unknown text"
     | "parse" =>
       let (st', out') := judgeParse cfg cid o st out
       hs := setH hs h st'; out := out'
